@@ -129,6 +129,18 @@ func (node *Node) processUnconfirmedTx(ctx context.Context, tx handlers.TxData) 
 		}
 
 		if err := fetchSpentOutputs(ctx, node.store, node.outputFetcher, txState); err != nil {
+			if !tx.Trusted {
+				// An untrusted node can send a tx that spends outputs that don't exist. That is
+				// not a reason to stop following the trusted node, so the tx is just forgotten. It
+				// will be processed again if the trusted node announces it.
+				logger.Warn(ctx, "Dropping tx from untrusted node, spent outputs not available : %s : %s",
+					hash, err)
+				node.memPool.RemoveTransaction(*hash)
+				if _, err := node.txs.Remove(ctx, *hash, -1); err != nil {
+					return errors.Wrap(err, "Failed to remove from tx repo")
+				}
+				return nil
+			}
 			return errors.Wrap(err, "fetch outputs")
 		}
 	} else {
